@@ -14,6 +14,7 @@ import (
 	"mime/multipart"
 	"net/http"
 	"net/http/httptest"
+	"sort"
 	"strconv"
 	"strings"
 
@@ -351,6 +352,11 @@ func mkOffer(r *hk.Rand) offer {
 	case 4:
 		// an unknown hash name: well-formed ref, unsupported
 		o.key, o.noTruth, o.supported, o.kind = "foo-"+hex.EncodeToString(r.Bytes(4)), true, false, "unknown-hash"
+	case 6:
+		// an UNKNOWN hash name carrying the true sha1/sha224/sha256 digest of the bytes: only the
+		// hash NAME decides which function applies, never the digest length
+		dn := map[string]string{"sha1": "ripemd160", "sha224": "blake2s224", "sha256": "sha512t256"}[name]
+		o.key, o.noTruth, o.supported, o.kind = dn+"-"+strings.SplitN(o.key, "-", 2)[1], true, false, "unknown-hash-true-digest"
 	case 5:
 		// a supported ref whose digest is the hash of nothing in play
 		o.key, o.noTruth, o.kind = name+"-"+hex.EncodeToString(r.Bytes(map[string]int{"sha1": 20, "sha224": 28, "sha256": 32}[name])), true, "random-digest"
@@ -434,6 +440,29 @@ func Run(r *hk.Run) {
 		}
 		for i := 0; i < nOffers; i++ {
 			o := mkOffer(rnd)
+			if len(c.accepted) > 0 && rnd.Chance(25) {
+				// offer OTHER bytes under a ref the store already holds: must be rejected like a first upload
+				keys := make([]string, 0, len(c.accepted))
+				for k := range c.accepted {
+					keys = append(keys, k)
+				}
+				sort.Strings(keys)
+				k := keys[rnd.Intn(len(keys))]
+				truth := c.accepted[k]
+				bad := append(append([]byte{}, truth...), 'x')
+				switch rnd.Intn(3) {
+				case 0:
+					if len(truth) > 0 {
+						bad = append([]byte{}, truth...)
+						bad[rnd.Intn(len(bad))] ^= 0x10
+					}
+				case 1:
+					if len(truth) > 1 {
+						bad = truth[:len(truth)-1]
+					}
+				}
+				o = offer{key: k, truth: truth, offered: bad, kind: "reoffer-corrupt-under-held-ref", supported: true}
+			}
 			fin := []string{"eof", "eof", "eof", "eof+", "err"}[rnd.Intn(5)]
 			frags := fragment(rnd, o.offered)
 			hkey := hk.Hex([]byte(o.key))
